@@ -84,11 +84,12 @@ def to_it(M, x, by_ref=False, tystr=''):
 
 def callf(M, f, args):
     """call a closure / fn item / fn pointer with the given argument list"""
-    if isinstance(f, Ref): f = V(f)
+    while isinstance(f, Ref): f = V(f)              # &F, &&F, &mut F are callable like F
     if isinstance(f, Native) and f.kind == 'FnItem':
         name = f.d['name']
         if name.startswith('@native:'): return ms.NATIVE_FNS[name[8:]](M, args, name)
-        return M.call(name, args)
+        if name in M.bodies: return M.call(name, args)
+        return M.do_call(name, args, None)          # a std function passed as a value (`map(Box::new)`): models first
     if isinstance(f, Native) and f.kind == 'ZST':
         key = M.lookup(f.d['name'])
         if key is None:
@@ -524,6 +525,20 @@ def _(M, a, c):
     clone = 'extend_from_slice' in c
     for x in drain(_it(M, a[1])):
         v.d['b'].append(generic_clone(M, deref_all(x)) if (clone or isinstance(x, Ref) and 'Extend<&' in c) else x)
+    return UNIT
+@model_re(r'^<(BTreeMap|HashMap|HashSet|BTreeSet)<.*> as Extend<.*>>::extend$')
+def _(M, a, c):
+    m = V(a[0]); byref = 'Extend<(&' in c or 'Extend<&' in c
+    for x in drain(_it(M, a[1])):
+        if m.kind in ('HashSet', 'BTreeSet'):
+            k = generic_clone(M, deref_all(x)) if byref else x
+            if skey(k) not in m.d['m']: m.d['m'][skey(k)] = [k, UNIT]
+        else:
+            k, v = x.fields
+            if byref: k, v = generic_clone(M, deref_all(k)), generic_clone(M, deref_all(v))
+            # an existing key keeps its key object, the value is replaced (std semantics)
+            if skey(k) in m.d['m']: m.d['m'][skey(k)][1] = v
+            else: m.d['m'][skey(k)] = [k, v]
     return UNIT
 @model_re(r'^<(Vec|BTreeMap|HashMap|HashSet|BTreeSet|String|VecDeque)<?.*>? as FromIterator<.*>>::from_iter$')
 def _(M, a, c):
@@ -1025,6 +1040,25 @@ def _(M, a, c):
     r = generic_eq(M, a[0], a[1])
     return bnot(r) if norm_name(c).endswith('::ne') else r
 
+class _SymBytes:
+    """byte string with symbolic parts, ordered lexicographically as far as the concrete parts decide"""
+    __slots__ = ('b',)
+    def __init__(self, b): self.b = list(b)
+    def _cmp(self, o):
+        for x, y in zip(self.b, o.b):
+            if x is y: continue
+            cx = isinstance(x, Int) and not x.sym(); cy = isinstance(y, Int) and not y.sym()
+            if cx and cy:
+                if x.v != y.v: return -1 if x.v < y.v else 1
+                continue
+            raise Unsupported("sort: the order of two strings depends on symbolic bytes")
+        return (len(self.b) > len(o.b)) - (len(self.b) < len(o.b))
+    def __lt__(self, o): return self._cmp(o) < 0
+    def __gt__(self, o): return self._cmp(o) > 0
+    def __le__(self, o): return self._cmp(o) <= 0
+    def __ge__(self, o): return self._cmp(o) >= 0
+    def __eq__(self, o): return self._cmp(o) == 0
+    def __ne__(self, o): return self._cmp(o) != 0
 def _sort_key(M, k):
     k = deref_all(k)
     if isinstance(k, Int):
@@ -1032,8 +1066,8 @@ def _sort_key(M, k):
         return (0, k.v)
     if isinstance(k, (Native, Slice)) and (isinstance(k, Slice) or k.kind in ('String', 'Vec')):
         b, lo, hi = _list_of(k)
-        if any(isinstance(e, Dec) or e.sym() for e in b[lo:hi]): raise Unsupported("sort on symbolic string keys")
-        return (1, bytes(e.v for e in b[lo:hi]))
+        if any(isinstance(e, Dec) or e.sym() for e in b[lo:hi]): return (1, _SymBytes(b[lo:hi]))
+        return (1, _SymBytes(b[lo:hi]))
     if isinstance(k, bool): return (2, k)
     if isinstance(k, Agg) and k.ty == 'tuple': return (3, tuple(_sort_key(M, f) for f in k.fields))
     raise Unsupported("sort key %r" % (k,))
@@ -1072,6 +1106,19 @@ def as_str_native(x):
     s = _bytes(x); return Slice(s.b, s.lo, s.hi, True)
 
 # ---- io::Write on stdout / stderr
+_SW = {'n': 0}
+def _short_write(M, st, data):
+    """`Write::write` may write any non-empty prefix of the buffer (its documented contract): demonic choice between the whole buffer
+    and a short write (one byte; half of the buffer) -- the caller has to loop (`write_all`)"""
+    n = len(data)
+    _SW['n'] += 1
+    if n >= 2 and _SW['n'] <= 3:          # (bounded: the first three `write` calls of a path are demonic)
+        mo.FORK_CHOICE['n'] += 1
+        sel = z3.BitVec('shortwrite%d' % mo.FORK_CHOICE['n'], 8); M.assume(z3.ULT(sel, 3))
+        if M.branch(sel == 1): n = 1
+        elif M.branch(sel == 2): n = max(1, n // 2)
+    mo.OUT[st.d['which']].append(data[:n])
+    return ok(usize(n))
 @model_re(r'^std::io::(stdout|stderr)$|^(stdout|stderr)$')
 def _(M, a, c): return Native('Stream', which='stdout' if 'stdout' in c else 'stderr')
 @model_re(r'^(std::io::)?(Stdout|Stderr)::lock$|^<(std::io::)?(Stdout|Stderr)(Lock<.*>)? as Write>::(flush|by_ref)$')
@@ -1086,18 +1133,51 @@ def _(M, a, c):
     if fn == 'write_fmt': data = mo.render_args(M, a[1])
     else:
         b, lo, hi = _list_of(a[1]); data = list(b[lo:hi])
+    if fn == 'write': return _short_write(M, st, data)
     mo.OUT[st.d['which']].append(data)
-    return ok(usize(len(data))) if fn == 'write' else ok(UNIT)
+    return ok(UNIT)
+@model_re(r'^Option::transpose$|^std::result::Result::transpose$|^Result::transpose$')
+def _(M, a, c):
+    x = a[0]
+    if norm_name(c).startswith('Option'):
+        # Option<Result<T, E>> -> Result<Option<T>, E>
+        if x.variant == 0: return ok(NONE())
+        r = x.fields[0]
+        return ok(some(r.fields[0])) if r.variant == 0 else err(r.fields[0])
+    # Result<Option<T>, E> -> Option<Result<T, E>>
+    if x.variant == 1: return some(err(x.fields[0]))
+    o = x.fields[0]
+    return some(ok(o.fields[0])) if o.variant == 1 else NONE()
 # ---- map entry API
 @model_re(r'^(BTreeMap|HashMap)::entry$')
-def _(M, a, c): return Native('Entry', map=V(a[0]), key=a[1])
+def _(M, a, c):
+    # the std enum: hash_map::Entry = Occupied | Vacant, btree_map::Entry = Vacant | Occupied
+    mp_ = V(a[0]); occ = skey(a[1]) in mp_.d['m']; btree = norm_name(c).startswith('BTreeMap')
+    variant = (1 if occ else 0) if btree else (0 if occ else 1)
+    return Agg('Entry', variant, [Native('Entry', map=mp_, key=a[1])])
+def _entry(e):
+    while isinstance(e, Ref): e = V(e)
+    return e.fields[0] if isinstance(e, Agg) else e
+@model_re(r'(^|::)(OccupiedEntry|VacantEntry)(::<.*>)?::(get|get_mut|into_mut|insert|insert_entry|key|into_key|remove|remove_entry)$')
+def _(M, a, c):
+    nm = norm_name(c); fn = nm.split('::')[-1]; occ = 'OccupiedEntry' in nm; e = _entry(a[0]); d = e.d['map'].d['m']; k = skey(e.d['key'])
+    if fn == 'key': return Ref(d[k], 0) if occ else Ref([e.d['key']], 0)
+    if fn == 'into_key': return e.d['key']
+    if occ:
+        if fn in ('get', 'get_mut', 'into_mut'): return Ref(d[k], 1)
+        if fn == 'insert': old = d[k][1]; d[k][1] = a[1]; return old
+        if fn == 'remove': return d.pop(k)[1]
+        if fn == 'remove_entry': kv = d.pop(k); return Agg('tuple', 0, [kv[0], kv[1]])
+    else:
+        if fn == 'insert': d[k] = [e.d['key'], a[1]]; return Ref(d[k], 1)
+    raise Unsupported("entry method " + nm)
 @model_re(r'^(std::collections::(btree_map|hash_map)::)?Entry::<.*>::(or_insert|or_insert_with|or_default|and_modify|key)$|^Entry::(or_insert|or_insert_with|or_default|and_modify|key)$|^std::collections::(btree_map|hash_map)::Entry::(or_insert|or_insert_with|or_default|and_modify|key)$')
 def _(M, a, c):
-    fn = norm_name(c).split('::')[-1]; e = a[0]; d = e.d['map'].d['m']; k = skey(e.d['key'])
+    fn = norm_name(c).split('::')[-1]; e = _entry(a[0]); d = e.d['map'].d['m']; k = skey(e.d['key'])
     if fn == 'key': return Ref([e.d['key']], 0)
     if fn == 'and_modify':
         if k in d: callf(M, a[1], [Ref(d[k], 1)])
-        return e
+        return a[0]
     if k not in d:
         if fn == 'or_insert': v = a[1]
         elif fn == 'or_insert_with': v = callf(M, a[1], [])
@@ -1148,6 +1228,43 @@ def _(M, a, c):
             if M.branch(r): return some(usize(i))
         return NONE()
     if fn == 'char_indices': return Native('CharIndices', s=s, pos=0)
+    if fn in ('split', 'lines', 'split_once'):
+        if fn == 'lines': pb = [Int(8, False, 10)]
+        else:
+            pat = a[1]
+            while isinstance(pat, Ref): pat = V(pat)
+            if isinstance(pat, Int): pb = encode_char(M, pat)
+            else:
+                try: pb = list(_bytes(pat).items())
+                except Exception: raise Unsupported("str::%s with this pattern kind" % fn)
+        m = len(pb)
+        if m == 0: raise Unsupported("str::%s with an empty pattern" % fn)
+        parts = []; start = 0; i = 0; found = False
+        def eqb(x, y):
+            # a Dec element stands for the decimal digits (and sign) of a symbolic integer: it never equals a byte outside [-0-9]
+            if isinstance(x, Dec) or isinstance(y, Dec):
+                o = y if isinstance(x, Dec) else x
+                if isinstance(o, Int) and not o.sym() and not (0x30 <= o.v <= 0x39 or o.v == 0x2d): return False
+                raise Unsupported("str::%s: pattern may match inside the rendering of a symbolic integer" % fn)
+            return M.binop('Eq', x, y)
+        while i + m <= n:
+            r = True
+            for x, y in zip(items[i:i + m], pb): r = band(r, eqb(x, y))
+            if M.branch(r):
+                parts.append((start, i)); i += m; start = i; found = True
+                if fn == 'split_once': break
+            else: i += 1
+        parts.append((start, n))
+        def sl(p): return Slice(s.b, s.lo + p[0], s.lo + p[1], True)
+        if fn == 'split_once': return some(Agg('tuple', 0, [sl(parts[0]), sl(parts[1])])) if found else NONE()
+        if fn == 'lines':
+            if parts[-1][0] == parts[-1][1]: parts.pop()
+            out = []
+            for (p, q) in parts:
+                if q > p and M.branch(M.binop('Eq', items[q - 1], Int(8, False, 13))): q -= 1
+                out.append((p, q))
+            parts = out
+        return from_list([sl(p) for p in parts])
     raise Unsupported("str::" + fn)
 
 # ---- Unicode predicates on non-ASCII characters: the table is taken from Python's unicodedata as explicit code-point ranges
@@ -1205,6 +1322,34 @@ def _range_bounds(M, r, n):
     if lo is None or hi is None or lo > hi: return None
     return lo, hi
 ENUMS.setdefault('RangeFull', ['RangeFull'])
+@model_re(r'^String::(replace_range|drain)$|^Vec::(drain|splice)$')
+def _(M, a, c):
+    fn = norm_name(c).split('::')[-1]; v = V(a[0]); b = v.d['b']
+    r = _range_bounds(M, a[1], len(b))
+    if r is None: raise Panic("range out of bounds in %s" % fn)
+    lo, hi = r
+    if fn == 'replace_range':
+        # (char-boundary panics are not modelled: the bytes at lo / hi must be concrete ASCII or the edges)
+        for k in (lo, hi):
+            if 0 < k < len(b) and not isinstance(b[k], Dec):
+                # documented panic: the range must lie on char boundaries (a byte 0x80..0xBF continues a character)
+                x = b[k]
+                if M.branch(band(M.binop('Ge', x, Int(8, False, 0x80)), M.binop('Lt', x, Int(8, False, 0xC0)))): raise Panic("replace_range: byte index %d is not a char boundary" % k)
+        b[lo:hi] = list(_bytes(a[2]).items()); return UNIT
+    removed = b[lo:hi]
+    if fn == 'splice':
+        b[lo:hi] = list(drain(_it(M, a[2])))
+    else: del b[lo:hi]
+    return from_list(removed)
+@model_re(r'^<&+(?:mut )?([^ ]+|.*) as PartialEq(<.*>)?>::(eq|ne)$')
+def _(M, a, c):
+    r = generic_eq(M, a[0], a[1])
+    return bnot(r) if norm_name(c).endswith('::ne') else r
+@model_re(r'^<([\w:]+) as PartialEq>::ne$')
+def _(M, a, c):
+    # the provided method: !eq
+    ty = re.match(r'^<([\w:]+) as PartialEq>::ne$', norm_name(c)).group(1)
+    return bnot(M.do_call('<%s as PartialEq>::eq' % ty, a, None))
 @model_re(r'^<(Vec<.*>|\[.*\]|str|String) as Index(Mut)?<(std::ops::)?Range(From|To|Full|Inclusive|ToInclusive)?(<usize>)?>>::index(_mut)?$|^core::str::<impl str>::get(_mut)?$|^core::slice::<impl \[.*\]>::get(_mut)?$')
 def _(M, a, c):
     nm = norm_name(c); checked = nm.split('::')[-1].startswith('get')
@@ -1239,5 +1384,6 @@ def _(M, a, c):
     if fn == 'write_fmt': data = mo.render_args(M, a[1])
     else:
         b, lo, hi = _list_of(a[1]); data = list(b[lo:hi])
+    if fn == 'write': return _short_write(M, st, data)
     mo.OUT[st.d['which']].append(data)
-    return ok(usize(len(data))) if fn == 'write' else ok(UNIT)
+    return ok(UNIT)
